@@ -70,6 +70,9 @@ func NewSummaryCommand$1$1$1 returns (err)
   dyncall 1 summary.summaryCmd
   modifies *
   modifies ghost(cbLen, cbErr, cbNode, cbStop, cbRet, cbLineNo, cbLine, cbHeader, cbElems, cbNElems, scRd, scPos, privLo, evOf, accKey, accP, accN, accH, bufSink, bufSticky, sinkFailed, sinkPend, prLen, prSink, prArg, prArgs, csvLen, csvW, csvN, csvRow, tnodes, tdepth, tmax, tmapOf, jlen, tvLen, tv, tseg, tvSet, adLen, adName, adVal, adSep, adRoot, procLen, procTime, procSrc, lastOpen, cfgRd)
+  // the command is actually run (exactly this call) and its error is what the closure returns
+  ghost after dyncall 1 { let cmdErr := #ret }
+  ensures @runs-the-command [C17 C16] err == cmdErr
   ghost before dyncall 1 {
     assert @streams [C16] #arg0 == streams[1] && #arg1 == streams[0]
     assert @wiring [C16 C06 C11 C15] #arg2.DateFormat == o.GlobalConfig.DateFormat && #arg2.ParserConfig == o.ParserConfig && #arg2.ResolverConfig == o.ResolverConfig && #arg2.ReporterConfig == o.ReporterConfig && #arg2.FilterConfig == o.FilterConfig
@@ -89,6 +92,9 @@ func NewSummaryCommand$1$1 returns (err)
   ghost before call 1 GetTimeFromString {
     assert @date-arg [C06 C16] #arg0 == o.GlobalConfig.Now && #arg1 == o.GlobalConfig.DateFormat && #arg2 == ArgsFirst(CtxArgs(c))
   }
+  // a DATE argument that cannot be resolved is an error (and the book and log are not opened)
+  ghost after call 1 GetTimeFromString { let terr := #ret1 }
+  ensures @date-error-returned [C06 C16] terr != nil ==> err == terr
   ghost before dyncall 1 {
     assert @files [C16] len(#arg0) == 2 && #arg0[0] == o.GlobalConfig.DbFileName && #arg0[1] == o.GlobalConfig.LogFileName
   }
